@@ -15,7 +15,7 @@ EXTRA_TRUST = ["C05 only: the per-pair theorems are closed by native_decide (eva
                "axiom Lean.ofReduceBool per theorem) — the kernel does not re-run the exploration"]
 RULE = ("a case = one (source, reference .ink.json) pair of the conformance corpus: the source is compiled with the "
         "current compiler and both documents are explored along EVERY choice path down to the depth bound (12; 6 "
-        "for stories that loop for ever; 4 for The Intercept), on the real runtime (save/load at every choice "
+        "for stories that loop for ever; 6 for The Intercept, 8 in the thorough tier), on the real runtime (save/load at every choice "
         "point) and on the model; non-trivial when the story offers at least one choice; distinct by file")
 ASSUMPTIONS = ["both stories run on the same runtime with seed 1",
                "the three shuffle stories are compared with the text of their lines blanked (modulo the shuffle)",
@@ -151,7 +151,7 @@ def prepare(ctx):
         gb = stories.story_meta_from_json(dst)["globals"]
         names = sorted(set(ga) & set(gb))
         shuffle = os.path.basename(rel) in SHUFFLE
-        depth = 4 if "Intercept" in rel else 12
+        depth = (6 if ctx.tier == "quick" else 8) if "Intercept" in rel else 12
         la, ca = model_explore(refp, depth, shuffle, names)
         if la is not None and not ca and "Intercept" not in rel:
             depth = 6
@@ -248,7 +248,7 @@ def run(ctx):
                 ctx.violation("oracle", {"source": e["rel"], "depth": e["depth"], "choice_path": path_at(lr, d[0]),
                                          "reference_compiled": d[1], "this_compiler": d[2],
                                          "why": "the story compiled by this compiler behaves differently from the reference-compiled one"},
-                              signature={"kind": "pair", "file": e["rel"]})
+                              signature={"kind": "pair", "file": e["rel"], "path": json.dumps(path_at(lr, d[0]))})
             if e.get("globals_only_one_side"):
                 ctx.count("pairs_with_globals_on_one_side")
             if len(ctx.samples) < 4 and has_choice:
